@@ -280,8 +280,8 @@ func ruleC01OpShapes(p *Program, r *Run) {
 	}
 	opKey := p.ObjKey(x) + ".Op"
 	constVal := func(pkgScope *types.Scope, name string) string {
-		c, ok := pkgScope.Lookup(name).(*types.Const)
-		if !ok {
+		c := p.constNamed(pkgScope, name)
+		if c == nil {
 			fatalf("anchor not found: const %s", name)
 		}
 		return constKey(c.Val())
